@@ -172,6 +172,19 @@ def build_traces(path, tier, seed):
             _ = np.array(o.smooth_fa_spectrum)
             if j % 4 == 3:
                 o.add_constant(0.1)                          # the record changes, the frequency axes do not
+            if j % 5 in (1, 4):
+                # the Fourier spectrum itself is regenerated with another transform length that has the SAME number of bins
+                # (2m and 2m + 1) -- the frequencies change, their count does not -- and the smoothing asked for again
+                N_ = 2 * (len(o.values) // 2 + int(rng.integers(1, 9)))
+                o.gen_fa_spectrum(n=N_)
+                o.gen_smooth_fa_spectrum(smooth_fa_freqs=targets, band=band)
+                _ = np.array(o.smooth_fa_spectrum)
+                o.gen_fa_spectrum(n=N_ + 1)
+                if j % 5 == 4:
+                    o.gen_smooth_fa_spectrum(band=band)                  # same targets, same band, nothing else said
+                    out = np.array(o.smooth_fa_spectrum)
+                    add({"kind": "smooth", "freqs": enc_seq(o.fa_freqs), "amps": enc_seq(np.abs(o.fa_spectrum)), "targets": enc_seq(targets), "band": enc(band), "out": enc_seq(out)},
+                        {"kind": "smooth", "fn": "Signal.gen_smooth_fa_spectrum() after gen_fa_spectrum(n=2m) -> smoothing -> gen_fa_spectrum(n=2m+1)", "n": n, "band": band, "targets": nt})
             o.gen_smooth_fa_spectrum(smooth_fa_freqs=targets, band=band)
             out = np.array(o.smooth_fa_spectrum)
         add({"kind": "smooth", "freqs": enc_seq(o.fa_freqs), "amps": enc_seq(np.abs(o.fa_spectrum)), "targets": enc_seq(targets), "band": enc(band), "out": enc_seq(out)},
